@@ -12,6 +12,11 @@ CoreInit == {Empty,
 \* choice: one two-case choice (one member each... b has two), a non member with a prefix related name, one plain leaf
 ChoiceLeaf == {"c.x", "c.y", "c.z"}
 ChoiceInit == {Empty, [l \in {"c.z"} |-> "s:b"]}
+FaultLeaf == {"pl.a", "pl.s"}
+FaultInit == {Empty, [l \in {"pl.a"} |-> "s:b"]}
+FaultInitQ == {Empty}
+FaultLeafQ == {"pl.a"}
+FaultPrioOf == [o \in {"A", "B"} |-> IF o = "A" THEN {5} ELSE {7}]
 \* generation (simulation) universes: wider than the exhaustive ones
 GenPrioOf == [o \in {"A", "B", "C"} |-> CASE o = "A" -> {5, 10} [] o = "B" -> {7, 12} [] o = "C" -> {8}]
 GenCoreLeaf == Fam_core
